@@ -6,6 +6,8 @@ CONSTANTS
   Slices <- IdxSlices
   Sels <- TAllSels
   Items <- TItems
+  SetSels <- NoSels
+  SetSlices <- NoSlices
   Ops <- IndexOps
 INVARIANT Shape
 INVARIANT LenIsCalls
@@ -14,7 +16,9 @@ INVARIANT KTransparent
 INVARIANT RecordFaithful
 INVARIANT IthRecord
 INVARIANT NoAlias
+INVARIANT NullInert
 PROPERTY ArgUnchanged
 PROPERTY ConcatOrder
 PROPERTY IndexShape
+PROPERTY NullNeutral
 INVARIANT Emit
